@@ -9,7 +9,9 @@
 
    What is ignored (acceptance-irrelevant in the interpreter, proved): node ids, rule names, the
    [root] flag (NonTerminal creation), unit wrapper sequences (textX's [__asgn_plain] around an
-   assignment's right-hand side), one level of sequence nesting inside a sequence.
+   assignment's right-hand side), one level of sequence nesting inside a sequence, and the notation
+   `x (s x)*` (first grammar) for `x+[s]` (second grammar) when x is always truthy on success ([atrue],
+   which may use the explicit oracle hypothesis that the regexes listed in [ne] never match empty).
    What is kept: kinds, texts of string matches, oracle ids of regex matches (= pattern text and
    flags, the translator shares the numbering), order and number of children, separators,
    suppression, and the None/falsy-result quirks: a wrapper is transparent in an ordered choice /
@@ -428,8 +430,8 @@ Definition textx_accepted_diffs : list (list N * list N) :=
     ("rrel_expression.0.0", "RRELExpression.0.0");
     (* FINDING rrel-fixed-name: ['n'~attr] is missing in textx.tx *)
     ("rrel_navigation", "RRELNavigation");
-    (* NOTATION separator: x (sep x)*  /  (x sep)* x   vs   x+[sep] *)
-    ("rule_params", "TextxRule.1.0"); ("textx_rule_body", "Choice.0"); ("choice", "Choice.0");
+    (* NOTATION separator: (x sep)* x  vs  x+[sep]  (the two forms differ as nodes - after `a,` one fails, the
+       other succeeds on `a` - and agree only in their context; x (sep x)* vs x+[sep] is decided by the checker) *)
     ("rrel_sequence", "RRELSequence.0"); ("rrel_path.0", "RRELPath.0");
     (* NOTATION terminals: two-alternative string_value vs the STRING regex; one regex /.../ vs '/' regex '/' *)
     ("string_value", "STRING"); ("str_match", "STRING"); ("re_match", "ReMatch") ]%string.
